@@ -411,4 +411,275 @@ theorem sb_get_str_of_table {b : Nat} (hb : 2 ≤ b) (hb62 : b ≤ 62) (hok : No
       (64 * up.length + 1) up [] hu hne hge hval
     simpa using this
 
+/-! ### mpn_get_str, power-of-two bases -/
+
+theorem fixedDigits_split {D : Nat} (hD : 0 < D) (c : Nat) : ∀ (a y : Nat), y < D ^ (a + c) →
+    fixedDigits D (a + c) y = fixedDigits D a (y / D ^ c) ++ fixedDigits D c (y % D ^ c)
+  | 0, y, h => by
+    simp only [Nat.zero_add] at h
+    simp [fixedDigits, Nat.mod_eq_of_lt h]
+  | a + 1, y, _ => by
+    rw [show a + 1 + c = (a + c) + 1 by omega, fixedDigits, fixedDigits]
+    have hp : 0 < D ^ (a + c) := Nat.pow_pos hD
+    rw [fixedDigits_split hD c a (y % D ^ (a + c)) (Nat.mod_lt _ hp)]
+    have e1 : y / D ^ (a + c) = y / D ^ c / D ^ a := by
+      rw [Nat.div_div_eq_div_mul, ← pow_add, Nat.add_comm]
+    have e2 : y % D ^ (a + c) / D ^ c = y / D ^ c % D ^ a := by
+      rw [Nat.add_comm, pow_add, Nat.mod_mul_right_div_self]
+    have e3 : y % D ^ (a + c) % D ^ c = y % D ^ c := by
+      rw [Nat.add_comm, pow_add]; exact Nat.mod_mul_right_mod _ _ _
+    rw [e1, e2, e3]; simp
+
+theorem digitsOf_small {D Q : Nat} (hD : 2 ≤ D) (h0 : 0 < Q) (h1 : Q < D) : digitsOf D Q = [Q] := by
+  rw [digitsOf_step hD h0, Nat.div_eq_of_lt h1, Nat.mod_eq_of_lt h1]; simp
+
+/-- a number with exactly `m` digits: its digit string is the fixed-width one -/
+theorem digitsOf_eq_fixed {D : Nat} (hD : 2 ≤ D) {m W : Nat} (hm : 0 < m) (hlo : D ^ (m - 1) ≤ W) (hhi : W < D ^ m) :
+    digitsOf D W = fixedDigits D m W := by
+  obtain ⟨k, rfl⟩ : ∃ k, m = k + 1 := ⟨m - 1, by omega⟩
+  simp only [Nat.add_sub_cancel] at hlo
+  have hp : 0 < D ^ k := Nat.pow_pos (by omega)
+  rw [fixedDigits]
+  have hQ0 : 0 < W / D ^ k := Nat.div_pos hlo hp
+  have hQ1 : W / D ^ k < D := by rw [Nat.div_lt_iff_lt_mul hp, Nat.mul_comm, ← pow_succ]; exact hhi
+  conv_lhs => rw [← Nat.div_add_mod W (D ^ k), Nat.mul_comm]
+  rw [digitsOf_append_fixed hD k _ _ hQ0 (Nat.mod_lt _ hp), digitsOf_small hD hQ0 hQ1]; simp
+
+theorem pow2Inner_spec {bpd : Nat} (hbpd : 0 < bpd) (n1 r : Nat) (hr : r < bpd) : ∀ k : Nat,
+    pow2Inner bpd n1 (((r + k * bpd : Nat) : Int) - bpd) =
+      (fixedDigits (2 ^ bpd) k (n1 / 2 ^ r % (2 ^ bpd) ^ k), (r : Int) - bpd)
+  | 0 => by
+    rw [pow2Inner, dif_neg (by omega)]; simp [fixedDigits]
+  | k + 1 => by
+    rw [pow2Inner, dif_pos (by constructor <;> [(push_cast; nlinarith); exact hbpd])]
+    have harg : ((r + (k + 1) * bpd : Nat) : Int) - bpd - bpd = ((r + k * bpd : Nat) : Int) - bpd := by
+      push_cast; ring
+    have htn : (((r + (k + 1) * bpd : Nat) : Int) - bpd).toNat = r + k * bpd := by
+      have : ((r + (k + 1) * bpd : Nat) : Int) - bpd = ((r + k * bpd : Nat) : Int) := by push_cast; ring
+      rw [this]; exact Int.toNat_natCast _
+    simp only [harg, htn]
+    rw [pow2Inner_spec hbpd n1 r hr k, fixedDigits]
+    simp only
+    rw [Nat.one_shiftLeft, Nat.and_two_pow_sub_one_eq_mod, Nat.shiftRight_eq_div_pow]
+    have hD : 0 < (2 ^ bpd) ^ k := Nat.pow_pos (Nat.pow_pos (by omega))
+    have e1 : n1 / 2 ^ r % (2 ^ bpd) ^ (k + 1) / (2 ^ bpd) ^ k = n1 / 2 ^ (r + k * bpd) % 2 ^ bpd := by
+      rw [pow_succ, Nat.mod_mul_right_div_self, Nat.div_div_eq_div_mul, ← pow_mul, ← pow_add, Nat.mul_comm bpd k]
+    have e2 : n1 / 2 ^ r % (2 ^ bpd) ^ (k + 1) % (2 ^ bpd) ^ k = n1 / 2 ^ r % (2 ^ bpd) ^ k := by
+      rw [pow_succ]; exact Nat.mod_mul_right_mod _ _ _
+    rw [e1, e2]
+
+/-- arithmetic core of one limb boundary of the power-of-two conversion -/
+theorem pow2_boundary {bpd r k s E n1 u lower : Nat} (hs : s + r = bpd) (hs64 : s ≤ 64) (hs1 : 0 < s)
+    (hu : u < 2 ^ 64) (hlow : lower < 2 ^ E) :
+    let W := n1 * 2 ^ (E + 64) + (u * 2 ^ E + lower)
+    let P0' := 64 - s + E
+    let P0 := P0' + (k + 1) * bpd
+    (W % 2 ^ P0) % 2 ^ P0' = (u * 2 ^ E + lower) % 2 ^ P0' ∧
+    (W % 2 ^ P0) / 2 ^ P0' = (n1 * 2 ^ s + u / 2 ^ (64 - s)) % (2 ^ bpd) ^ (k + 1) ∧
+    (n1 * 2 ^ s + u / 2 ^ (64 - s)) % (2 ^ bpd) ^ (k + 1) / 2 ^ bpd = n1 / 2 ^ r % (2 ^ bpd) ^ k ∧
+    (n1 * 2 ^ s + u / 2 ^ (64 - s)) % (2 ^ bpd) ^ (k + 1) % 2 ^ bpd = n1 % 2 ^ r * 2 ^ s + u / 2 ^ (64 - s) ∧
+    u / 2 ^ (64 - s) < 2 ^ s := by
+  intro W P0' P0
+  have hu' : u / 2 ^ (64 - s) < 2 ^ s := by
+    rw [Nat.div_lt_iff_lt_mul (Nat.pow_pos (by omega)), ← pow_add]
+    rw [show s + (64 - s) = 64 by omega]; exact hu
+  have e64 : E + 64 = s + P0' := by omega
+  have hW : W = (n1 * 2 ^ s) * 2 ^ P0' + (u * 2 ^ E + lower) := by
+    show n1 * 2 ^ (E + 64) + _ = _
+    rw [e64, pow_add]; ring
+  have hP0 : (2 : Nat) ^ P0 = 2 ^ P0' * (2 ^ bpd) ^ (k + 1) := by
+    show 2 ^ (P0' + (k + 1) * bpd) = _
+    rw [pow_add, ← pow_mul, Nat.mul_comm bpd]
+  have hdiv : (u * 2 ^ E + lower) / 2 ^ P0' = u / 2 ^ (64 - s) := by
+    show _ / 2 ^ (64 - s + E) = _
+    rw [Nat.add_comm (64 - s) E, pow_add, ← Nat.div_div_eq_div_mul]
+    congr 1
+    rw [Nat.mul_comm, Nat.mul_add_div (Nat.pow_pos (by omega)), Nat.div_eq_of_lt hlow]; simp
+  refine ⟨?_, ?_, ?_, ?_, hu'⟩
+  · rw [hP0, Nat.mod_mul_right_mod, hW, Nat.mul_comm _ (2 ^ P0'), Nat.mul_add_mod]
+  · rw [hP0, Nat.mod_mul_right_div_self, hW, Nat.mul_comm _ (2 ^ P0'),
+      Nat.mul_add_div (Nat.pow_pos (by omega)), hdiv]
+  · rw [pow_succ, Nat.mul_comm ((2 ^ bpd) ^ k), Nat.mod_mul_right_div_self]
+    congr 1
+    rw [← hs, pow_add, ← Nat.div_div_eq_div_mul, Nat.mul_comm n1, Nat.mul_add_div (Nat.pow_pos (by omega)),
+      Nat.div_eq_of_lt hu']; simp
+  · rw [pow_succ, Nat.mul_comm ((2 ^ bpd) ^ k), Nat.mod_mul_right_mod]
+    have hn := Nat.div_add_mod n1 (2 ^ r)
+    have : n1 * 2 ^ s + u / 2 ^ (64 - s) = 2 ^ bpd * (n1 / 2 ^ r) + (n1 % 2 ^ r * 2 ^ s + u / 2 ^ (64 - s)) := by
+      rw [← hs, pow_add]; conv_lhs => rw [← hn]
+      ring
+    rw [this, Nat.mul_add_mod]
+    apply Nat.mod_eq_of_lt
+    rw [← hs, pow_add]
+    have : n1 % 2 ^ r < 2 ^ r := Nat.mod_lt _ (Nat.pow_pos (by omega))
+    nlinarith [Nat.pow_pos (n := s) (show 0 < 2 by omega)]
+
+theorem B_pow (n : Nat) : B ^ n = 2 ^ (64 * n) := by unfold B; rw [← pow_mul]
+
+theorem pow2Go_spec {bpd : Nat} (hbpd : 0 < bpd) (hbpd64 : bpd ≤ 64) :
+    ∀ (rest : List Nat) (n1 p : Nat), Limbs rest → bpd ∣ (p + 64 * rest.length) →
+      pow2Go bpd n1 (p : Int) rest =
+        fixedDigits (2 ^ bpd) ((p + 64 * rest.length) / bpd)
+          ((n1 * B ^ rest.length + val rest.reverse) % 2 ^ (p + 64 * rest.length))
+  | [], n1, p, _, hdvd => by
+    obtain ⟨k, hk⟩ := hdvd
+    simp only [List.length_nil, Nat.mul_zero, Nat.add_zero] at hk
+    subst hk
+    have h := pow2Inner_spec hbpd n1 0 hbpd k
+    simp only [Nat.zero_add, pow_zero, Nat.div_one] at h
+    simp only [pow2Go, List.length_nil, Nat.mul_zero, Nat.add_zero, pow_zero, Nat.mul_one, List.reverse_nil, val_nil]
+    rw [show ((bpd * k : Nat) : Int) - (bpd : Int) = ((k * bpd : Nat) : Int) - bpd by rw [Nat.mul_comm], h,
+      Nat.mul_div_cancel_left _ hbpd, pow_mul]
+  | u :: rest, n1, p, hl, hdvd => by
+    have ⟨hu, hrest⟩ := Limbs_cons.mp hl
+    have hp := Nat.div_add_mod p bpd
+    have hr : p % bpd < bpd := Nat.mod_lt _ hbpd
+    generalize p / bpd = k at hp
+    generalize p % bpd = r at hp hr
+    subst hp
+    have hi := pow2Inner_spec hbpd n1 r hr k
+    rw [pow2Go, show ((bpd * k + r : Nat) : Int) - (bpd : Int) = ((r + k * bpd : Nat) : Int) - bpd by
+      push_cast; ring, hi]
+    simp only
+    have hs : (-((r : Int) - bpd)).toNat = bpd - r := by omega
+    have hp' : (r : Int) - bpd + 64 = ((64 - (bpd - r) : Nat) : Int) := by omega
+    rw [hs, hp', Int.toNat_natCast]
+    -- induction hypothesis
+    have hdvd' : bpd ∣ (64 - (bpd - r)) + 64 * rest.length := by
+      have : (64 - (bpd - r)) + 64 * rest.length + (k + 1) * bpd = bpd * k + r + 64 * (u :: rest).length := by
+        simp only [List.length_cons]; ring_nf; omega
+      have h2 : bpd ∣ (64 - (bpd - r)) + 64 * rest.length + (k + 1) * bpd := this ▸ hdvd
+      exact (Nat.dvd_add_left (Dvd.intro_left _ rfl)).mp h2
+    rw [pow2Go_spec hbpd hbpd64 rest u _ hrest hdvd']
+    -- arithmetic
+    have hlow := val_lt rest.reverse (fun x hx => hrest x (List.mem_reverse.mp hx))
+    rw [List.length_reverse, B_pow] at hlow
+    have hb := pow2_boundary (bpd := bpd) (r := r) (k := k) (s := bpd - r) (E := 64 * rest.length) (n1 := n1)
+      (u := u) (lower := val rest.reverse) (by omega) (by omega) (by omega) (by simpa [B_eq] using hu) hlow
+    simp only at hb
+    obtain ⟨b1, b2, b3, b4, b5⟩ := hb
+    have hW : n1 * B ^ (u :: rest).length + val (u :: rest).reverse
+        = n1 * 2 ^ (64 * rest.length + 64) + (u * 2 ^ (64 * rest.length) + val rest.reverse) := by
+      simp only [List.length_cons, List.reverse_cons, val_snoc, List.length_reverse, B_pow]
+      ring_nf
+    have hP : bpd * k + r + 64 * (u :: rest).length = 64 - (bpd - r) + 64 * rest.length + (k + 1) * bpd := by
+      simp only [List.length_cons]; ring_nf; omega
+    have hcnt : (64 - (bpd - r) + 64 * rest.length + (k + 1) * bpd) / bpd
+        = (k + 1) + (64 - (bpd - r) + 64 * rest.length) / bpd := by
+      rw [Nat.add_mul_div_right _ _ hbpd, Nat.add_comm]
+    rw [hW, hP, hcnt]
+    have hD : 0 < 2 ^ bpd := Nat.pow_pos (by omega)
+    have hm : (64 - (bpd - r) + 64 * rest.length) = bpd * ((64 - (bpd - r) + 64 * rest.length) / bpd) :=
+      (Nat.mul_div_cancel' hdvd').symm
+    generalize (64 - (bpd - r) + 64 * rest.length) / bpd = m' at *
+    have hpow : (2 : Nat) ^ (64 - (bpd - r) + 64 * rest.length) = (2 ^ bpd) ^ m' := by rw [hm, pow_mul]
+    have hpow2 : (2 ^ bpd) ^ (k + 1 + m') = 2 ^ (64 - (bpd - r) + 64 * rest.length + (k + 1) * bpd) := by
+      rw [← pow_mul, hm]; congr 1; ring
+    rw [fixedDigits_split hD m' (k + 1) _ (by rw [hpow2]; exact Nat.mod_lt _ (Nat.pow_pos (by omega)))]
+    rw [← hpow, b1, b2]
+    rw [fixedDigits_snoc hD k _ (Nat.mod_lt _ (Nat.pow_pos hD)), b3, b4]
+    rw [B_pow]
+    -- the straddling digit
+    have hn0 : ((n1 <<< (bpd - r)) % B) &&& ((1 <<< bpd) - 1) = (n1 % 2 ^ r) <<< (bpd - r) := by
+      rw [Nat.one_shiftLeft, Nat.and_two_pow_sub_one_eq_mod, Nat.shiftLeft_eq, Nat.shiftLeft_eq]
+      have hBD : B = 2 ^ bpd * 2 ^ (64 - bpd) := by unfold B; rw [← pow_add]; congr 1; omega
+      rw [hBD, Nat.mod_mul_right_mod]
+      have e : (2 : Nat) ^ bpd = 2 ^ r * 2 ^ (bpd - r) := by rw [← pow_add]; congr 1; omega
+      rw [e, Nat.mul_mod_mul_right]
+    rw [hn0, Nat.shiftRight_eq_div_pow, ← Nat.shiftLeft_add_eq_or_of_lt b5, Nat.shiftLeft_eq]
+    simp [List.append_assoc]
+
+/-- bit length of a normalised limb vector: 2^(bits-1) ≤ val < 2^bits with bits = 64·n - clz(top) -/
+theorem bitlen_bounds {up : List Nat} (hu : Limbs up) (hne : up ≠ []) (htop : up.getLast! ≠ 0) :
+    63 - Nat.log2 up.getLast! ≤ 63 ∧ Nat.log2 up.getLast! ≤ 63 ∧
+    2 ^ (64 * up.length - clz up.getLast! - 1) ≤ val up ∧ val up < 2 ^ (64 * up.length - clz up.getLast!) := by
+  unfold clz
+  have hsplit := dropLast_getLast! up hne
+  have hlim := Limbs_append.mp (hsplit ▸ hu)
+  have hn1 : up.getLast! < B := hlim.2 _ (by simp)
+  have hlo := Nat.log2_self_le htop
+  have hhi := Nat.lt_log2_self (n := up.getLast!)
+  have hl63 : Nat.log2 up.getLast! ≤ 63 := by
+    by_contra hcon
+    have : 2 ^ 64 ≤ 2 ^ Nat.log2 up.getLast! := Nat.pow_le_pow_right (by omega) (by omega)
+    rw [B_eq] at hn1; omega
+  have hdl := val_lt up.dropLast hlim.1
+  have hlen : up.length = up.dropLast.length + 1 := by
+    conv_lhs => rw [← hsplit]
+    simp
+  have hv : val up = val up.dropLast + B ^ up.dropLast.length * up.getLast! := by
+    conv_lhs => rw [← hsplit]
+    rw [val_snoc]
+  generalize up.getLast! = n1 at *
+  generalize Nat.log2 n1 = l at *
+  generalize up.dropLast.length = m at *
+  rw [B_pow] at hdl hv
+  have e1 : 64 * up.length - (63 - l) - 1 = 64 * m + l := by omega
+  have e2 : 64 * up.length - (63 - l) = 64 * m + (l + 1) := by omega
+  refine ⟨by omega, hl63, ?_, ?_⟩
+  · rw [e1, hv, pow_add]
+    have := Nat.mul_le_mul_left (2 ^ (64 * m)) hlo; omega
+  · rw [e2, hv, pow_add]
+    have h1 : n1 + 1 ≤ 2 ^ (l + 1) := hhi
+    have := Nat.mul_le_mul_left (2 ^ (64 * m)) h1
+    rw [Nat.mul_add, Nat.mul_one] at this; omega
+
+theorem get_str_pow2_of_table {b : Nat} (hb : 2 ≤ b) (hok : Pow2Ok b) (h64 : bigBase b ≤ 64)
+    (up : List Nat) (hu : Limbs up) (hne : up ≠ []) (htop : up.getLast! ≠ 0) :
+    get_str_pow2 b up = digitsOf b (val up) := by
+  obtain ⟨hpow, hbpd, _, _⟩ := hok
+  obtain ⟨_, hl63, hlo, hhi⟩ := bitlen_bounds hu hne htop
+  have hsplit := dropLast_getLast! up hne
+  have hlim := Limbs_append.mp (hsplit ▸ hu)
+  have hlen : up.length = up.dropLast.length + 1 := by
+    conv_lhs => rw [← hsplit]
+    simp
+  have hrest : up.reverse.drop 1 = up.dropLast.reverse := by
+    conv_lhs => rw [← hsplit]
+    simp
+  have hv : val up = up.getLast! * B ^ up.dropLast.length + val up.dropLast := by
+    conv_lhs => rw [← hsplit]
+    rw [val_snoc]; ring
+  unfold get_str_pow2
+  simp only [hrest]
+  generalize hbits : 64 * up.length - clz up.getLast! = bits at *
+  generalize hbpdg : bigBase b = bpd at *
+  have hbits1 : 64 * up.dropLast.length + 1 ≤ bits := by
+    rw [← hbits, hlen]; unfold clz; omega
+  -- rounded-up bit count
+  have hround : ∃ bits', (if (bits % bpd != 0) = true then bits + (bpd - bits % bpd) else bits) = bits' ∧
+      bpd ∣ bits' ∧ bits ≤ bits' ∧ bits' < bits + bpd := by
+    by_cases h0 : bits % bpd = 0
+    · exact ⟨bits, by simp [h0], Nat.dvd_of_mod_eq_zero h0, le_refl _, by omega⟩
+    · refine ⟨bits + (bpd - bits % bpd), by simp [h0], ?_, by omega, ?_⟩
+      · have hm := Nat.div_add_mod bits bpd
+        have hlt := Nat.mod_lt bits hbpd
+        refine ⟨bits / bpd + 1, ?_⟩
+        rw [Nat.mul_add, Nat.mul_one]; omega
+      · have hlt := Nat.mod_lt bits hbpd; omega
+  obtain ⟨bits', hb', hdvd, hge, hlt⟩ := hround
+  rw [hb']
+  have hcast : ((bits' : Int) - ((up.length - 1 : Nat) : Int) * 64) = ((bits' - 64 * up.dropLast.length : Nat) : Int) := by
+    rw [hlen]; simp only [Nat.add_sub_cancel]; omega
+  rw [hcast]
+  have hP : bits' - 64 * up.dropLast.length + 64 * up.dropLast.reverse.length = bits' := by
+    rw [List.length_reverse]; omega
+  rw [pow2Go_spec hbpd h64 up.dropLast.reverse _ _
+    (fun x hx => hlim.1 x (List.mem_reverse.mp hx)) (by rw [hP]; exact hdvd)]
+  rw [hP, List.reverse_reverse, List.length_reverse, ← hv, hpow]
+  have hWlt : val up < 2 ^ bits' := lt_of_lt_of_le hhi (Nat.pow_le_pow_right (by omega) hge)
+  rw [Nat.mod_eq_of_lt hWlt]
+  obtain ⟨m, hm⟩ := hdvd
+  have hmpos : 0 < m := by
+    rcases Nat.eq_zero_or_pos m with h | h
+    · subst h; omega
+    · exact h
+  rw [hm, Nat.mul_div_cancel_left _ hbpd]
+  refine (digitsOf_eq_fixed hb hmpos ?_ ?_).symm
+  · rw [← hpow, ← pow_mul]
+    refine le_trans (Nat.pow_le_pow_right (by omega) ?_) hlo
+    have : bpd * (m - 1) = bpd * m - bpd := by rw [Nat.mul_sub, Nat.mul_one]
+    rw [this]; omega
+  · rw [← hpow, ← pow_mul, ← hm]; exact hWlt
+
 end Mpir.Radix
